@@ -330,10 +330,39 @@ def gen_cases(chk):
     return cases, n_tlc
 
 
-def describe(case, ev, detail):
-    if ev is None:
-        return detail
-    return f"step {json.dumps({k: v for k, v in ev.items() if k not in ('obs', 'vc', 'fc')})[:300]}: {detail}"
+def _cell_at(obs, si, r, c):
+    if 1 <= si <= len(obs):
+        for x in obs[si - 1]["cells"]:
+            if x["r"] == r and x["c"] == c:
+                return {k: x[k] for k in ("k", "v", "b", "f")}
+    return None
+
+
+def make_describe(cases, events):
+    """TLC's verdict names sheet / row / column and the differing fields but never quotes cell texts
+    (any character may occur in them); the texts are added here from the recorded events, for the
+    reader only."""
+    import re
+    index = {}
+    for ci, evs in enumerate(events):
+        for off, e in enumerate(evs):
+            index[id(e)] = (ci, off)
+
+    def describe(case, ev, detail):
+        if ev is None:
+            return detail
+        head = json.dumps({k: v for k, v in ev.items() if k not in ("obs", "vc", "fc")}, ensure_ascii=True)[:300]
+        extra = ""
+        m = re.search(r'"sheet", (\d+), "row", (\d+), "col", (\d+)', detail)
+        loc = index.get(id(ev))
+        if m and loc and loc[1] > 0 and ev.get("a") == "SaveLoad":
+            si, r, c = int(m.group(1)), int(m.group(2)), int(m.group(3))
+            before = _cell_at(events[loc[0]][loc[1] - 1].get("obs", []), si, r, c)
+            after = _cell_at(ev.get("obs", []), si, r, c)
+            extra = (f" | saved {json.dumps(before, ensure_ascii=True)[:200]} reloaded "
+                     f"{json.dumps(after, ensure_ascii=True)[:200]}")
+        return f"step {head}: {detail}{extra}"
+    return describe
 
 
 def judge(chk, cases):
@@ -351,7 +380,7 @@ def judge(chk, cases):
         if detail.startswith('<<"set"'):
             raise vlib.ToolError(f"case {ci}, step {off}: the workbook built through the API is not the one the "
                                  f"script describes: {detail[:500]}")
-    chk.process_validation(out, cases, events, "workbook", describe)
+    chk.process_validation(out, cases, events, "workbook", make_describe(cases, events))
     return events
 
 
